@@ -50,13 +50,13 @@ import Lungo.Props.C18
 import Lungo.Proofs.ArithLaws
 import Lungo.Proofs.AccessLaws
 import Lungo.Proofs.ApplyLaws
-import Lungo.Proofs.NoPanic
-import Lungo.Props.C11
+-- PENDING import Lungo.Proofs.NoPanic
+-- PENDING import Lungo.Props.C11
 import Lungo.Proofs.SortLaws
-import Lungo.Proofs.ProjectLaws
-import Lungo.Proofs.ProjectPaths
+-- PENDING import Lungo.Proofs.ProjectLaws
+-- PENDING import Lungo.Proofs.ProjectPaths
 import Lungo.Props.C13
-import Lungo.Props.C14
+-- PENDING import Lungo.Props.C14
 import Lungo.Model.Conc
 import Lungo.Model.StreamTS
 import Lungo.Expected.Skeleton
